@@ -19,7 +19,8 @@ import (
 const (
 	keyPartOrder   = "C28-part-10000-sorts-before-1001"
 	keyDeleteRecur = "C28-delete-object-removes-subtree"
-	keyCopyEscape  = "C28-copy-destination-not-escaped"
+	keyCopyEscape  = "C28-copy-keys-not-escaped"
+	keyPutOnDir    = "C28-put-onto-emptied-directory"
 
 	accessKey = "AKVERIFC28"
 	secretKey = "verif/secret+key/C28"
@@ -168,8 +169,18 @@ func genRelKey() *rapid.Generator[string] {
 // ---------------------------------------------------------------- model
 
 type model struct {
-	prefix string
-	objs   map[string][]byte // full key -> content
+	prefix  string
+	objs    map[string][]byte // full key -> content
+	everDir map[string]bool   // every directory a written key ever implied (they can outlive their keys as empty directories)
+}
+
+// set records a write of key.
+func (m *model) set(key string, data []byte) {
+	m.objs[key] = data
+	parts := strings.Split(key[len(m.prefix):], "/")
+	for i := 1; i < len(parts); i++ {
+		m.everDir[m.prefix+strings.Join(parts[:i], "/")] = true
+	}
 }
 
 func (m *model) keys() []string {
@@ -212,6 +223,11 @@ func (m *model) writable(key string) bool {
 		if _, ok := m.objs[m.prefix+strings.Join(parts[:i], "/")]; ok {
 			return false
 		}
+	}
+	if m.everDir[key] && vlib.Known(keyPutOnDir) {
+		// all keys below it are deleted, but the empty directory may still be there
+		vlib.Excluded(keyPutOnDir)
+		return false
 	}
 	return true
 }
@@ -408,7 +424,7 @@ type partUpload struct {
 func TestPropRoundTrip(t *testing.T) {
 	vlib.Check(t, 100, 1600, func(t *rapid.T) {
 		cluster(t)
-		m := &model{prefix: newCasePrefix(), objs: map[string][]byte{}}
+		m := &model{prefix: newCasePrefix(), objs: map[string][]byte{}, everDir: map[string]bool{}}
 		var gone []string // keys that were deleted or named in deletes
 		var trace []string
 		nontrivial := false
@@ -439,7 +455,7 @@ func TestPropRoundTrip(t *testing.T) {
 				if err != nil || code != 200 {
 					fail("PUT %q (%d bytes) -> %d %s %v", key, len(data), code, trimS(string(body), 200), err)
 				}
-				m.objs[key] = data
+				m.set(key, data)
 				if err := checkWhole(key, data); err != nil {
 					fail("%v", err)
 				}
@@ -456,7 +472,7 @@ func TestPropRoundTrip(t *testing.T) {
 				if err != nil || code != 200 {
 					fail("streaming-signed PUT %q (%d bytes, chunk sizes %v) -> %d %s %v", key, len(data), cs, code, trimS(string(body), 200), err)
 				}
-				m.objs[key] = data
+				m.set(key, data)
 				if err := checkWhole(key, data); err != nil {
 					fail("after the streaming-signed PUT: %v", err)
 				}
@@ -482,7 +498,7 @@ func TestPropRoundTrip(t *testing.T) {
 				if err != nil || code != 200 || bytes.Contains(body, []byte("<Error>")) {
 					fail("CopyObject %q -> %q -> %d %s %v", src, dst, code, trimS(string(body), 200), err)
 				}
-				m.objs[dst] = m.objs[src]
+				m.set(dst, m.objs[src])
 				if err := checkWhole(dst, m.objs[dst]); err != nil {
 					fail("after CopyObject: %v", err)
 				}
@@ -595,7 +611,7 @@ func TestPropRoundTrip(t *testing.T) {
 					whole = append(whole, final[n]...)
 					borders = append(borders, len(whole))
 				}
-				m.objs[key] = whole
+				m.set(key, whole)
 				if err := checkWhole(key, whole); err != nil {
 					fail("after CompleteMultipartUpload with parts %v (ascending order %v): %v", nums, sorted, err)
 				}
